@@ -45,5 +45,15 @@ pub fn all() -> Vec<CheckDef> {
         real: vec!["net_utils::is_global_ip*", "TcpForwarder::connect", "http_downstream::TcpConnection::destination", "Tunnel", "codecs"],
         simulated: vec!["resolver (planned answers, rebinding, getaddrinfo numeric forms)", "outbound TCP", "client transport", "clock"],
         not_run: vec!["TLS", "QUIC/HTTP3"],
+    },
+    CheckDef {
+        property: "C08",
+        scenarios: vec![("h1", 100)],
+        level: "fault_enumeration",
+        rule: "enumerated part: every 1-cut of head+payload of six canonical requests (CONNECT with and without payload and download, _check, plain POST with body, lower-case names, Host last), each with and without an arrival gap; sampled part: heads with 0-32 headers and up to exactly 1024 bytes, near-misses (33+ headers, 1025+ bytes, bad version, NUL, missing colon, bad method), 0-3 cuts, byte-at-a-time, random pieces, gaps from 0 to beyond the listener time-out, endpoint read sizes 1..2048; non-trivial = a valid request was judged against the reference or an over-limit one was sent; distinct = distinct world event trace. A run that stops making progress (spin) is caught by the worker's wall-clock watchdog and reported as a violation with its plan.",
+        assumptions: vec![KERNEL, "client_listener_timeout also bounds the life of an HTTP/1.1 session; plans whose gaps add up to it are undecided", "malformed heads other than over-limit ones only have to cause no egress"],
+        real: vec!["Http1Codec (listen, decode_request, StreamSource/StreamSink)", "HttpDownstream", "Tunnel", "TcpForwarder", "http_forwarded_stream (plain POST)", "DuplexPipe"],
+        simulated: vec!["client transport (segmentation, arrival times, read sizes)", "resolver", "destination", "clock"],
+        not_run: vec!["TLS", "metrics listener's use of Http1Codec (see C16)"],
     }]
 }
